@@ -39,7 +39,10 @@ Definition kind_class (k : tok_kind) : tcl :=
       | KEndFunctionBlock | KEndProgram | KEndFunction => CKw KwEndPou
       | KBool => CBoolT
       | KHash => CHash
-      | KPeriod | KLeftBracket | KRightBracket | KRange => CSel
+      | KPeriod => CDot
+      | KLeftBracket => CLB
+      | KRightBracket => CRB
+      | KRange => CSel
       | _ => COther
       end
   end.
